@@ -24,18 +24,20 @@ RULE = ("history runs: sigma (registers, flags, internal memory, data, stacks) x
         "(biased to RET/RETF/RETI, block, BCD, exchange, push/pop and 20-bit arithmetic encodings) x a prefix program of "
         "10-60 instructions from another state x a hidden-state scramble; non-trivial = the prefix executed at least 3 "
         "instructions and X at least one; distinct = distinct (prefix, sigma, X) hash. split runs: generated firmware "
-        "with timers, N+M vs N then M on each machine")
+        "with timers (self-patching code included), N+M vs N then M on each machine; stepper runs: one CPUStepper over a "
+        "sequence of unrelated (registers, sparse image) requests next to a fresh one per request")
 SCHEDULE_MEASURE = "distinct (prefix program, scramble, sigma, focus) hashes"
 COMPONENTS = {
     "real": ["sc62015/pysc62015/emulator.py Emulator/Registers + cached_decoder.py + instr lifting",
              "sc62015/core/src/llama/{eval,state}.rs LlamaExecutor/LlamaState", "PCE500Emulator.run/step, CoreRuntime::step(n)",
              "sc62015/core/src/device.rs DeviceModel::configure_runtime + sc62015/core/src/sio.rs SioStub (device-configured "
-             "Rust machine whose firmware reaches the ROM's serial routines)"],
+             "Rust machine whose firmware reaches the ROM's serial routines)",
+             "sc62015/pysc62015/stepper.py CPUStepper.step (py-stepper)"],
     "stub": ["binja_test_mocks LLIL evaluator", "flat bus (see C06)"],
 }
 ASSUMPTIONS = ["TEMP registers, call-depth counters and perf counters themselves are not compared (they are the hidden state)"]
 PROBES = ["machine_history", "rom_stub_reached", "prefix_block", "prefix_call", "scramble", "focus_ret", "focus_block", "split_in_handler",
-          "repeat_identical", "tracing_on_off"]
+          "repeat_identical", "tracing_on_off", "stepper_reused"]
 FOCUS_OPS = [0x06, 0x07, 0x01, 0x04, 0x05, 0xCB, 0xCF, 0xD3, 0xDB, 0xE3, 0xEB, 0xF3, 0xFB, 0x54, 0x55, 0x5C, 0x5D, 0xC4, 0xC5,
              0xD4, 0xD5, 0xEC, 0xFC, 0xC0, 0xC1, 0xC2, 0xC3, 0xDD, 0xED, 0x6C, 0x7C, 0x28, 0x29, 0x2A, 0x2B, 0x2C, 0x2D, 0x2E, 0x2F,
              0x38, 0x39, 0x3A, 0x3B, 0x3C, 0x3D, 0x3E, 0x3F, 0x44, 0x45, 0x46, 0x4C, 0x4D, 0x4E, 0x56, 0x5E, 0xE4, 0xE5, 0xF4, 0xF5]
